@@ -18,10 +18,10 @@ const Object_ = <T extends Record<string, BeffParser<any>>>(
 ): BeffParser<{
   [K in keyof T]: T[K] extends BeffParser<infer U> ? U : never;
 }> => {
-  const props: Record<string, Runtype> = {};
-  for (const key of Object.keys(fields)) {
-    props[key] = (fields[key] as any)._runtype;
-  }
+  // props["__proto__"] = v would set the prototype of the table instead of declaring the field
+  const props: Record<string, Runtype> = Object.fromEntries(
+    Object.keys(fields).map((key) => [key, (fields[key] as any)._runtype]),
+  );
   return buildParserFromRuntype(new ObjectRuntype(undefined, props, []), "b.Object", true);
 };
 const stringParser = buildParserFromRuntype(new TypeofRuntype(undefined, "string"), "String", true);
